@@ -33,4 +33,18 @@ theorem C01_duplicate_entries_agree (w : World R) (hnr : w.NoRandom) (pt : P3 R)
       readBlock e₁ p.size out = readBlock e₂ p.size out :=
   C01_order_and_grouping_irrelevant w hnr pt depth ps ps g g' g g' out out h h i j p hi hj
 
+/-- **C01 (2-D)** the same through the cross-section interface -/
+theorem C01_order_and_grouping_irrelevant_2d (w : World R) (hnr : w.NoRandom) (pt : P2 R) (depth : R) (ps qs : List Req)
+    (g₁ g₁' g₂ g₂' : G) (out₁ out₂ : List R)
+    (h₁ : w.props2 pt depth ps g₁ = .ok (out₁, g₁')) (h₂ : w.props2 pt depth qs g₂ = .ok (out₂, g₂'))
+    (i j : Nat) (p : Req) (hi : ps[i]? = some p) (hj : qs[j]? = some p) :
+    ∃ e₁ e₂, (entries ps)[i]? = some e₁ ∧ (entries qs)[j]? = some e₂ ∧
+      readBlock e₁ p.size out₁ = readBlock e₂ p.size out₂ := by
+  obtain ⟨_, e₁, he₁, hs₁⟩ := C01_block_eq_single_2d w hnr pt depth ps g₁ g₁' out₁ h₁ i p hi
+  obtain ⟨_, e₂, he₂, hs₂⟩ := C01_block_eq_single_2d w hnr pt depth qs g₂ g₂' out₂ h₂ j p hj
+  refine ⟨e₁, e₂, he₁, he₂, ?_⟩
+  have := (hs₁ g₁).symm.trans (hs₂ g₁)
+  simp only [Except.ok.injEq, Prod.mk.injEq, and_true] at this
+  exact this
+
 end Gwb
